@@ -1225,3 +1225,422 @@ Proof.
     { exists 1, 0. split; [rewrite Rabs_R1; lra|]. split; [rewrite Rabs_R0; lra|]. unfold rf_lp. veq. }
     specialize (H Hr). rewrite norm_sub_self in H. lra.
 Qed.
+
+(** ** 5. pairs of planar convex polygons (triangle_to_triangle, triangle_to_rectangle,
+      rectangle_to_rectangle): a pair of points can be moved, without changing its difference vector,
+      until one of the two points lies on an edge of its polygon: slide both points along a direction
+      common to the two planes. *)
+(** *** leaving a polygon along a ray: any number of constraints *)
+Definition cval (tau : R) (c : R * R) : R := fst c + tau * snd c.
+
+Lemma refine_list (l : list (R * R)) (tau0 : R) :
+  (forall c, In c l -> 0 <= fst c) -> 0 <= tau0 ->
+  exists tau, 0 <= tau <= tau0 /\ (forall c, In c l -> 0 <= cval tau c) /\
+              (tau = tau0 \/ exists c, In c l /\ cval tau c = 0).
+Proof.
+  intros Hg Ht. induction l as [|a l IH].
+  - exists tau0. split; [lra|]. split; [intros c []|left; reflexivity].
+  - destruct IH as (tau1 & Ht1 & P1 & Z1); [intros c Hc; apply Hg; right; exact Hc|].
+    destruct (exit_refine (fst a) (snd a) tau1) as (tau2 & Ht2 & P2 & Z2); [apply Hg; left; reflexivity|lra|].
+    exists tau2. split; [lra|]. split.
+    + intros c [<-|Hc]; [exact P2|]. unfold cval. apply (seg_nonneg (fst c) (snd c) tau1); [apply Hg; right; exact Hc| |lra].
+      apply P1. exact Hc.
+    + destruct Z2 as [->|Z2].
+      * destruct Z1 as [->|(c & Hc & Zc)]; [left; reflexivity|]. right. exists c. split; [right; exact Hc|exact Zc].
+      * right. exists a. split; [left; reflexivity|exact Z2].
+Qed.
+
+Lemma ray_exit_list (l : list (R * R)) :
+  (forall c, In c l -> 0 <= fst c) -> (exists c, In c l /\ snd c < 0) ->
+  exists tau, 0 <= tau /\ (forall c, In c l -> 0 <= cval tau c) /\ exists c, In c l /\ cval tau c = 0.
+Proof.
+  intros Hg (c0 & Hc0 & Hr).
+  set (t0 := fst c0 / - snd c0).
+  assert (Ht0 : 0 <= t0) by (apply Rmult_le_pos; [apply Hg; exact Hc0|left; apply Rinv_0_lt_compat; lra]).
+  assert (E0 : cval t0 c0 = 0) by (unfold cval, t0; field; lra).
+  clearbody t0.
+  destruct (refine_list l t0 Hg Ht0) as (tau & Ht & P & Z).
+  exists tau. split; [lra|]. split; [exact P|].
+  destruct Z as [->|Z]; [exists c0; auto|exact Z].
+Qed.
+
+(** *** planar polygons as lists of affine constraints [k + ps * s + pr * r >= 0] on the coordinates *)
+Definition plane_at (o e0 e1 : V3R) (s r : R) : V3R := vadd o (vadd (vscale s e0) (vscale r e1)).
+Definition con : Type := (R * R * R)%type.
+Definition cev (c : con) (s r : R) : R := fst (fst c) + snd (fst c) * s + snd c * r.
+Definition crate (c : con) (al be : R) : R := snd (fst c) * al + snd c * be.
+Definition inside (cs : list con) (s r : R) : Prop := forall c, In c cs -> 0 <= cev c s r.
+Definition on_boundary (cs : list con) (s r : R) : Prop := exists c, In c cs /\ cev c s r = 0.
+Definition bounded_cs (cs : list con) : Prop :=
+  forall al be, al <> 0 \/ be <> 0 -> exists c, In c cs /\ crate c al be < 0.
+
+Definition tri_cs : list con := [(0, 1, 0); (0, 0, 1); (1, -1, -1)].
+Definition rect_cs (h0 h1 : R) : list con := [(h0, -1, 0); (h0, 1, 0); (h1, 0, -1); (h1, 0, 1)].
+
+Lemma tri_cs_bounded : bounded_cs tri_cs.
+Proof.
+  intros al be H. unfold tri_cs.
+  destruct (Rlt_dec al 0); [exists (0, 1, 0); split; [simpl; auto|unfold crate; simpl; lra]|].
+  destruct (Rlt_dec be 0); [exists (0, 0, 1); split; [simpl; auto|unfold crate; simpl; lra]|].
+  exists (1, -1, -1). split; [simpl; auto|]. unfold crate; simpl. destruct H; lra.
+Qed.
+Lemma rect_cs_bounded (h0 h1 : R) : bounded_cs (rect_cs h0 h1).
+Proof.
+  intros al be H. unfold rect_cs.
+  destruct (Rlt_dec al 0); [exists (h0, 1, 0); split; [simpl; auto|unfold crate; simpl; lra]|].
+  destruct (Rlt_dec 0 al); [exists (h0, -1, 0); split; [simpl; auto|unfold crate; simpl; lra]|].
+  destruct (Rlt_dec be 0); [exists (h1, 0, 1); split; [simpl; auto 6|unfold crate; simpl; lra]|].
+  exists (h1, 0, -1). split; [simpl; auto 6|]. unfold crate; simpl. destruct H; lra.
+Qed.
+
+(** a direction orthogonal to the normal lies in the span of the two axes *)
+Lemma in_span (e0 e1 v : V3R) :
+  cross e0 e1 <> vzero -> dot (cross e0 e1) v = 0 -> exists al be, v = vadd (vscale al e0) (vscale be e1).
+Proof.
+  intros Hnd Hpar. pose proof (cross_nonzero_pos _ Hnd) as Hnn.
+  pose proof (span_expand e0 e1 v) as Hex. rewrite Hpar in Hex.
+  set (nn := dot (cross e0 e1) (cross e0 e1)) in *.
+  exists (dot (cross v e1) (cross e0 e1) / nn), (dot (cross e0 v) (cross e0 e1) / nn).
+  replace v with (vscale (/ nn) (vscale nn v)) at 1 by (clearbody nn; veq; lra).
+  rewrite Hex. clearbody nn. veq; lra.
+Qed.
+
+(** two planes through the origin share a non-zero direction *)
+Lemma common_direction (e10 e11 e20 e21 : V3R) :
+  cross e10 e11 <> vzero -> cross e20 e21 <> vzero ->
+  exists v, v <> vzero /\ dot (cross e10 e11) v = 0 /\ dot (cross e20 e21) v = 0.
+Proof.
+  intros H1 H2. set (n1 := cross e10 e11) in *. set (n2 := cross e20 e21) in *.
+  destruct (Req_dec (dot (cross n1 n2) (cross n1 n2)) 0) as [Z|Z].
+  - apply dot_self_zero in Z.
+    exists e10. split; [|split].
+    + intros E. apply H1. unfold n1. rewrite E. veq.
+    + unfold n1. vsimp; ring.
+    + pose proof (cross_nonzero_pos _ H1) as Hnn.
+      assert (Hid : vscale (dot n1 n1) n2 = vadd (vscale (dot n1 n2) n1) (cross (cross n1 n2) n1)).
+      { clearbody n1 n2. veq. }
+      rewrite Z in Hid.
+      assert (Hd : dot n1 n1 * dot n2 e10 = dot n1 n2 * dot n1 e10).
+      { rewrite <- !dot_scale_l, Hid. rewrite dot_add_l, dot_scale_l.
+        replace (dot (cross vzero n1) e10) with 0 by (clearbody n1; vsimp; ring). ring. }
+      assert (Hz : dot n1 e10 = 0) by (unfold n1; vsimp; ring).
+      rewrite Hz in Hd. clearbody n1 n2. nra.
+  - exists (cross n1 n2). split; [|split].
+    + intros E. apply Z. rewrite E. vsimp; ring.
+    + clearbody n1 n2. vsimp; ring.
+    + clearbody n1 n2. vsimp; ring.
+Qed.
+
+Lemma cev_shift (c : con) (s r al be tau : R) :
+  cev c (s + tau * al) (r + tau * be) = cval tau (cev c s r, crate c al be).
+Proof. unfold cev, crate, cval. cbn [fst snd]. ring. Qed.
+
+Lemma slide_pair (cs1 cs2 : list con) (o1 e10 e11 o2 e20 e21 : V3R) (s1 r1 s2 r2 : R) :
+  cross e10 e11 <> vzero -> cross e20 e21 <> vzero -> bounded_cs cs1 ->
+  inside cs1 s1 r1 -> inside cs2 s2 r2 ->
+  exists s1' r1' s2' r2',
+    inside cs1 s1' r1' /\ inside cs2 s2' r2' /\ (on_boundary cs1 s1' r1' \/ on_boundary cs2 s2' r2') /\
+    vsub (plane_at o1 e10 e11 s1' r1') (plane_at o2 e20 e21 s2' r2')
+    = vsub (plane_at o1 e10 e11 s1 r1) (plane_at o2 e20 e21 s2 r2).
+Proof.
+  intros H1 H2 Hb I1 I2.
+  destruct (common_direction e10 e11 e20 e21 H1 H2) as (v & Hv & Hv1 & Hv2).
+  destruct (in_span e10 e11 v H1 Hv1) as (al1 & be1 & E1).
+  destruct (in_span e20 e21 v H2 Hv2) as (al2 & be2 & E2).
+  assert (Hnz : al1 <> 0 \/ be1 <> 0).
+  { destruct (Req_dec al1 0) as [Za|Za]; [|left; exact Za]. destruct (Req_dec be1 0) as [Zb|Zb]; [|right; exact Zb].
+    exfalso. apply Hv. rewrite E1, Za, Zb. veq. }
+  destruct (Hb al1 be1 Hnz) as (c0 & Hc0 & Hneg).
+  set (l := map (fun c => (cev c s1 r1, crate c al1 be1)) cs1 ++ map (fun c => (cev c s2 r2, crate c al2 be2)) cs2).
+  destruct (ray_exit_list l) as (tau & Ht & P & (cz & Hcz & Zz)).
+  { intros c Hc. apply in_app_or in Hc. destruct Hc as [Hc|Hc]; apply in_map_iff in Hc; destruct Hc as (c' & <- & Hc');
+      cbn [fst]; [apply I1|apply I2]; exact Hc'. }
+  { exists (cev c0 s1 r1, crate c0 al1 be1). split; [|exact Hneg].
+    apply in_or_app. left. apply in_map_iff. exists c0. auto. }
+  exists (s1 + tau * al1), (r1 + tau * be1), (s2 + tau * al2), (r2 + tau * be2).
+  split; [|split; [|split]].
+  - intros c Hc. rewrite cev_shift. apply P. apply in_or_app. left. apply in_map_iff. exists c. auto.
+  - intros c Hc. rewrite cev_shift. apply P. apply in_or_app. right. apply in_map_iff. exists c. auto.
+  - apply in_app_or in Hcz. destruct Hcz as [Hc|Hc]; apply in_map_iff in Hc; destruct Hc as (c' & <- & Hc').
+    + left. exists c'. split; [exact Hc'|]. rewrite cev_shift. exact Zz.
+    + right. exists c'. split; [exact Hc'|]. rewrite cev_shift. exact Zz.
+  - replace (plane_at o1 e10 e11 (s1 + tau * al1) (r1 + tau * be1))
+      with (vadd (plane_at o1 e10 e11 s1 r1) (vscale tau v)) by (rewrite E1; unfold plane_at; veq).
+    replace (plane_at o2 e20 e21 (s2 + tau * al2) (r2 + tau * be2))
+      with (vadd (plane_at o2 e20 e21 s2 r2) (vscale tau v)) by (rewrite E2; unfold plane_at; veq).
+    veq.
+Qed.
+
+(** the generic reduction and what it gives for optimality *)
+Definition pair_reduction (A B EA EB : set3) : Prop :=
+  forall x y, A x -> B y -> exists x' y', A x' /\ B y' /\ (EA x' \/ EB y') /\ vsub x' y' = vsub x y.
+
+Lemma pair_reduce_gen (A B EA EB : set3) (cs1 cs2 : list con) (o1 e10 e11 o2 e20 e21 : V3R) :
+  cross e10 e11 <> vzero -> cross e20 e21 <> vzero -> bounded_cs cs1 ->
+  (forall x, A x <-> exists s r, inside cs1 s r /\ x = plane_at o1 e10 e11 s r) ->
+  (forall y, B y <-> exists s r, inside cs2 s r /\ y = plane_at o2 e20 e21 s r) ->
+  (forall s r, inside cs1 s r -> on_boundary cs1 s r -> EA (plane_at o1 e10 e11 s r)) ->
+  (forall s r, inside cs2 s r -> on_boundary cs2 s r -> EB (plane_at o2 e20 e21 s r)) ->
+  pair_reduction A B EA EB.
+Proof.
+  intros H1 H2 Hb HA HB HEA HEB x y Hx Hy.
+  apply HA in Hx. destruct Hx as (s1 & r1 & I1 & ->). apply HB in Hy. destruct Hy as (s2 & r2 & I2 & ->).
+  destruct (slide_pair cs1 cs2 o1 e10 e11 o2 e20 e21 s1 r1 s2 r2 H1 H2 Hb I1 I2)
+    as (s1' & r1' & s2' & r2' & I1' & I2' & Hbd & Heq).
+  exists (plane_at o1 e10 e11 s1' r1'), (plane_at o2 e20 e21 s2' r2').
+  split; [apply HA; eauto|]. split; [apply HB; eauto|]. split; [|exact Heq].
+  destruct Hbd as [Hbd|Hbd]; [left; apply HEA|right; apply HEB]; assumption.
+Qed.
+
+Lemma pair_reduction_optimal (A B EA EB : set3) (d : R) :
+  pair_reduction A B EA EB ->
+  (forall x y, EA x -> B y -> d <= norm (vsub x y)) ->
+  (forall x y, A x -> EB y -> d <= norm (vsub x y)) ->
+  optimal A B d.
+Proof.
+  intros Hred H1 H2 x y Hx Hy. destruct (Hred x y Hx Hy) as (x' & y' & Hx' & Hy' & [He|He] & <-); auto.
+Qed.
+
+(** *** triangles and rectangles in this form *)
+Definition on_tri_edge (a b c : V3R) : set3 :=
+  fun x => exists se, In se (tri_edges a b c) /\ segment_set (fst se) (snd se) x.
+Definition on_rect_edge (c a0 a1 : V3R) (h0 h1 : R) : set3 :=
+  fun x => exists l se, In l (rectangle_edges c (vscale h0 a0) (vscale h1 a1)) /\ In se l /\
+                        segment_set (fst se) (snd se) x.
+
+Lemma triangle_set_cs (a b c x : V3R) :
+  triangle_set a b c x <-> exists s r, inside tri_cs s r /\ x = plane_at a (vsub b a) (vsub c a) s r.
+Proof.
+  split.
+  - intros (s & r & Hs & Hr & Hsr & ->). exists s, r. split; [|reflexivity].
+    intros c0 [<-|[<-|[<-|[]]]]; unfold cev; cbn [fst snd]; lra.
+  - intros (s & r & I & ->). exists s, r.
+    pose proof (I (0, 1, 0) ltac:(simpl; auto)) as I0.
+    pose proof (I (0, 0, 1) ltac:(simpl; auto)) as I1.
+    pose proof (I (1, -1, -1) ltac:(simpl; auto)) as I2. unfold cev in *. cbn [fst snd] in *.
+    repeat split; try lra.
+Qed.
+
+Lemma tri_boundary_edge (a b c : V3R) (s r : R) :
+  inside tri_cs s r -> on_boundary tri_cs s r -> on_tri_edge a b c (plane_at a (vsub b a) (vsub c a) s r).
+Proof.
+  intros I (c0 & Hc0 & Z).
+  pose proof (I (0, 1, 0) ltac:(simpl; auto)) as I0.
+  pose proof (I (0, 0, 1) ltac:(simpl; auto)) as I1.
+  pose proof (I (1, -1, -1) ltac:(simpl; auto)) as I2. unfold cev in *. cbn [fst snd] in *.
+  apply (tri_bary_edge a b c s r); try lra.
+  destruct Hc0 as [<-|[<-|[<-|[]]]]; cbn [fst snd] in Z; [left|right; left|right; right]; lra.
+Qed.
+
+Lemma rectangle_set_cs (c a0 a1 : V3R) (l0 l1 : R) (x : V3R) :
+  rectangle_set c a0 a1 l0 l1 x <-> exists s r, inside (rect_cs (/ 2 * l0) (/ 2 * l1)) s r /\ x = plane_at c a0 a1 s r.
+Proof.
+  split.
+  - intros (k0 & k1 & K0 & K1 & ->). apply Rabs_le_between' in K0, K1. exists k0, k1. split; [|reflexivity].
+    intros c0 [<-|[<-|[<-|[<-|[]]]]]; unfold cev; cbn [fst snd]; lra.
+  - intros (k0 & k1 & I & ->). exists k0, k1.
+    pose proof (I (/ 2 * l0, -1, 0) ltac:(simpl; auto)) as I0.
+    pose proof (I (/ 2 * l0, 1, 0) ltac:(simpl; auto)) as I1.
+    pose proof (I (/ 2 * l1, 0, -1) ltac:(simpl; auto)) as I2.
+    pose proof (I (/ 2 * l1, 0, 1) ltac:(simpl; auto 6)) as I3. unfold cev in *. cbn [fst snd] in *.
+    split; [apply Rabs_le; lra|]. split; [apply Rabs_le; lra|reflexivity].
+Qed.
+
+Lemma rect_boundary_edge (c a0 a1 : V3R) (h0 h1 s r : R) :
+  0 < h0 -> 0 < h1 ->
+  inside (rect_cs h0 h1) s r -> on_boundary (rect_cs h0 h1) s r -> on_rect_edge c a0 a1 h0 h1 (plane_at c a0 a1 s r).
+Proof.
+  intros Hh0 Hh1 I (c0 & Hc0 & Z).
+  pose proof (I (h0, -1, 0) ltac:(simpl; auto)) as I0.
+  pose proof (I (h0, 1, 0) ltac:(simpl; auto)) as I1.
+  pose proof (I (h1, 0, -1) ltac:(simpl; auto)) as I2.
+  pose proof (I (h1, 0, 1) ltac:(simpl; auto 6)) as I3. unfold cev in *. cbn [fst snd] in *.
+  apply (rect_bary_edge c a0 a1 h0 h1 s r); try lra.
+  destruct Hc0 as [<-|[<-|[<-|[<-|[]]]]]; cbn [fst snd] in Z; [left|right; left|right; right; left|right; right; right]; lra.
+Qed.
+
+Lemma tri_tri_reduction (a1 b1 c1 a2 b2 c2 : V3R) :
+  cross (vsub b1 a1) (vsub c1 a1) <> vzero -> cross (vsub b2 a2) (vsub c2 a2) <> vzero ->
+  pair_reduction (triangle_set a1 b1 c1) (triangle_set a2 b2 c2) (on_tri_edge a1 b1 c1) (on_tri_edge a2 b2 c2).
+Proof.
+  intros H1 H2.
+  apply (pair_reduce_gen _ _ _ _ tri_cs tri_cs a1 (vsub b1 a1) (vsub c1 a1) a2 (vsub b2 a2) (vsub c2 a2)); auto.
+  - apply tri_cs_bounded.
+  - intros x. apply triangle_set_cs.
+  - intros x. apply triangle_set_cs.
+  - intros s r. apply tri_boundary_edge.
+  - intros s r. apply tri_boundary_edge.
+Qed.
+
+Lemma tri_rect_reduction (a b c rc a0 a1 : V3R) (l0 l1 : R) :
+  cross (vsub b a) (vsub c a) <> vzero -> cross a0 a1 <> vzero -> 0 < l0 -> 0 < l1 ->
+  pair_reduction (triangle_set a b c) (rectangle_set rc a0 a1 l0 l1)
+                 (on_tri_edge a b c) (on_rect_edge rc a0 a1 (/ 2 * l0) (/ 2 * l1)).
+Proof.
+  intros H1 H2 L0 L1.
+  apply (pair_reduce_gen _ _ _ _ tri_cs (rect_cs (/ 2 * l0) (/ 2 * l1)) a (vsub b a) (vsub c a) rc a0 a1); auto.
+  - apply tri_cs_bounded.
+  - intros x. apply triangle_set_cs.
+  - intros x. apply rectangle_set_cs.
+  - intros s r. apply tri_boundary_edge.
+  - intros s r. apply rect_boundary_edge; lra.
+Qed.
+
+Lemma rect_rect_reduction (c1 a10 a11 : V3R) (l10 l11 : R) (c2 a20 a21 : V3R) (l20 l21 : R) :
+  cross a10 a11 <> vzero -> cross a20 a21 <> vzero -> 0 < l10 -> 0 < l11 -> 0 < l20 -> 0 < l21 ->
+  pair_reduction (rectangle_set c1 a10 a11 l10 l11) (rectangle_set c2 a20 a21 l20 l21)
+                 (on_rect_edge c1 a10 a11 (/ 2 * l10) (/ 2 * l11)) (on_rect_edge c2 a20 a21 (/ 2 * l20) (/ 2 * l21)).
+Proof.
+  intros H1 H2 L0 L1 L2 L3.
+  apply (pair_reduce_gen _ _ _ _ (rect_cs (/ 2 * l10) (/ 2 * l11)) (rect_cs (/ 2 * l20) (/ 2 * l21)) c1 a10 a11 c2 a20 a21); auto.
+  - apply rect_cs_bounded.
+  - intros x. apply rectangle_set_cs.
+  - intros x. apply rectangle_set_cs.
+  - intros s r. apply rect_boundary_edge; lra.
+  - intros s r. apply rect_boundary_edge; lra.
+Qed.
+
+(** *** the loops compute lower bounds of their candidates *)
+Lemma scan_min (brk : R3R -> R3R -> R3R -> bool) (K : R) (cands : list R3R) (best : R3R) :
+  (forall c old new, brk c old new = true -> rd c <= K) ->
+  K < rd (scan brk cands best) -> forall c, In c cands -> rd (scan brk cands best) <= rd c.
+Proof.
+  intros Hbrk. revert best. induction cands as [|c cs IH]; intros best HK x Hx; [destruct Hx|].
+  cbn [scan] in *. ops_R.
+  set (best' := if Rltb (rd c) (rd best) then c else best) in *.
+  assert (Hb' : rd best' <= rd c /\ rd best' <= rd best).
+  { unfold best'. destruct (Rltb (rd c) (rd best)) eqn:E; rb_hyp E; lra. }
+  destruct (brk c best best') eqn:Eb.
+  - apply Hbrk in Eb. lra.
+  - destruct Hx as [<-|Hx].
+    + pose proof (scan_le_best brk cs best'). lra.
+    + apply IH; assumption.
+Qed.
+
+Lemma fold_scan_min {S : Type} (brk : R3R -> R3R -> R3R -> bool) (K : R) (f : S -> R3R) (ll : list (list S)) best :
+  (forall c old new, brk c old new = true -> rd c <= K) ->
+  K < rd (fold_left (fun b segs => scan brk (map f segs) b) ll best) ->
+  forall l x, In l ll -> In x l -> rd (fold_left (fun b segs => scan brk (map f segs) b) ll best) <= rd (f x).
+Proof.
+  intros Hbrk. revert best. induction ll as [|l0 ll IH]; intros best HK l x Hl Hx; [destruct Hl|].
+  cbn [fold_left] in *. destruct Hl as [<-|Hl].
+  - pose proof (fold_scan_le_best brk f ll (scan brk (map f l0) best)) as H1.
+    pose proof (scan_min brk K (map f l0) best Hbrk ltac:(lra) (f x) (in_map f l0 x Hx)). lra.
+  - eapply IH; eauto.
+Qed.
+
+Lemma scan_ret_le (eps : R) (cands : list R3R) (best r : R3R) (fl : bool) :
+  scan_ret eps cands best = (r, fl) ->
+  (fl = true /\ rd r = 0) \/ (fl = false /\ rd r <= rd best /\ forall c, In c cands -> rd r <= rd c).
+Proof.
+  revert best. induction cands as [|c cs IH]; intros best; cbn [scan_ret].
+  - intros H. apply pair_equal_spec in H. destruct H as [<- <-]. right. split; [reflexivity|]. split; [lra|]. intros c [].
+  - ops_R. destruct (Rltb (rd c) (rd best)) eqn:E; rb_hyp E.
+    + destruct (Rleb (rd c) eps) eqn:E2; rb_hyp E2.
+      * intros H. apply pair_equal_spec in H. destruct H as [<- <-]. left. split; reflexivity.
+      * intros H. apply IH in H. destruct H as [H|(Hf & Hb & Hc)]; [left; exact H|].
+        right. split; [exact Hf|]. split; [lra|]. intros x [<-|Hx]; [exact Hb|auto].
+    + intros H. apply IH in H. destruct H as [H|(Hf & Hb & Hc)]; [left; exact H|].
+      right. split; [exact Hf|]. split; [exact Hb|]. intros x [<-|Hx]; [lra|auto].
+Qed.
+
+Lemma rd_rswap (r : R3R) : rd (rswap r) = rd r.
+Proof. destruct r as [[d p1] p2]. reflexivity. Qed.
+
+Lemma optimal_sym (A B : set3) (d : R) : optimal A B d -> optimal B A d.
+Proof. intros H x y Hx Hy. rewrite norm_sub_comm. apply H; assumption. Qed.
+
+Lemma optimal_zero (A B : set3) : optimal A B 0.
+Proof. intros x y _ _. apply norm_nonneg. Qed.
+
+(** *** the candidates *)
+(** the band exclusion of _line_to_triangle / _line_intersects_rectangle for the direction that
+    convert_segment_to_line computes for the edge [se] *)
+Definition edge_band (nrm : V3R) (eps : R) (se : V3R * V3R) : Prop :=
+  let sd := fst (convert_segment_to_line (fst se) (snd se)) in dot nrm sd = 0 \/ eps < Rabs (dot nrm sd).
+
+Lemma lstt_opt (s e a b c : V3R) (eps : R) :
+  s <> e -> 0 < eps < 1 -> cross (vsub b a) (vsub c a) <> vzero ->
+  eps <= dot (vsub b a) (vsub b a) -> eps <= dot (vsub c b) (vsub c b) -> eps <= dot (vsub a c) (vsub a c) ->
+  edge_band (Support.norm_vector (cross (vsub b a) (vsub c a))) eps (s, e) ->
+  optimal (segment_set s e) (triangle_set a b c) (rd (line_segment_to_triangle s e a b c eps)).
+Proof.
+  intros Hne He Hnd L1 L2 L3 Hband.
+  destruct (line_segment_to_triangle s e a b c eps) as [[d p1] p2] eqn:E. unfold rd. cbn [fst].
+  exact (line_segment_to_triangle_optimal _ _ _ _ _ _ _ _ _ Hne He Hnd L1 L2 L3 Hband E).
+Qed.
+
+Lemma lstr_opt (s e c a0 a1 : V3R) (l0 l1 eps : R) :
+  s <> e -> 0 < eps < 1 -> dot a0 a0 = 1 -> dot a1 a1 = 1 -> dot a0 a1 = 0 ->
+  0 <= l0 -> 0 <= l1 -> eps <= l0 * l0 -> eps <= l1 * l1 ->
+  edge_band (cross a0 a1) eps (s, e) ->
+  rd (line_segment_to_rectangle s e c a0 a1 l0 l1 eps) = 0 \/ eps <= rd (line_segment_to_rectangle s e c a0 a1 l0 l1 eps) ->
+  optimal (segment_set s e) (rectangle_set c a0 a1 l0 l1) (rd (line_segment_to_rectangle s e c a0 a1 l0 l1 eps)).
+Proof.
+  intros Hne He U0 U1 U01 H0 H1 L0 L1 Hband.
+  destruct (line_segment_to_rectangle s e c a0 a1 l0 l1 eps) as [[d p1] p2] eqn:E. unfold rd. cbn [fst]. intros Hd.
+  exact (line_segment_to_rectangle_optimal _ _ _ _ _ _ _ _ _ _ _ Hne He U0 U1 U01 H0 H1 L0 L1 Hband E Hd).
+Qed.
+
+Lemma norm_unit (a : V3R) : dot a a = 1 -> norm a = 1.
+Proof. intros H. rewrite (norm_abs_of_sq a 1); [apply Rabs_R1|lra]. Qed.
+
+(** the direction that convert_segment_to_line computes for a rectangle edge is the other axis *)
+Lemma rect_edge_dir (c a0 a1 : V3R) (l0 l1 : R) (l : list (V3R * V3R)) (se : V3R * V3R) :
+  0 < l0 -> 0 < l1 -> dot a0 a0 = 1 -> dot a1 a1 = 1 ->
+  In l (rectangle_edges c (vscale (/ 2 * l0) a0) (vscale (/ 2 * l1) a1)) -> In se l ->
+  fst (convert_segment_to_line (fst se) (snd se)) = a0 \/ fst (convert_segment_to_line (fst se) (snd se)) = a1.
+Proof.
+  intros H0 H1 U0 U1.
+  assert (K : forall (m a : V3R) (len : R), 0 < len -> dot a a = 1 ->
+            fst (convert_segment_to_line (vsub m (vscale (/ 2 * len) a)) (vadd m (vscale (/ 2 * len) a))) = a).
+  { intros m a len Hl Ha. unfold convert_segment_to_line.
+    replace (vsub (vadd m (vscale (/ 2 * len) a)) (vsub m (vscale (/ 2 * len) a))) with (vscale len a) by veq.
+    rewrite norm_scale, (norm_unit a Ha), Rabs_pos_eq by lra. ops_R.
+    rewrite (proj2 (Rltb_true 0 (len * 1))) by lra. cbn [fst]. clear - Hl. veq; lra. }
+  unfold rectangle_edges, rectangle_segment. cbn [map].
+  intros [<- | [<- | []]] [<- | [<- | []]]; cbn [fst snd]; [right|right|left|left]; apply K; assumption.
+Qed.
+
+Lemma edge_band_dir (nrm : V3R) (eps : R) (se : V3R * V3R) (a0 a1 : V3R) :
+  fst (convert_segment_to_line (fst se) (snd se)) = a0 \/ fst (convert_segment_to_line (fst se) (snd se)) = a1 ->
+  (dot nrm a0 = 0 \/ eps < Rabs (dot nrm a0)) -> (dot nrm a1 = 0 \/ eps < Rabs (dot nrm a1)) ->
+  edge_band nrm eps se.
+Proof. unfold edge_band. cbv zeta. intros [->| ->] B0 B1; assumption. Qed.
+
+Lemma cross_unit (a0 a1 : V3R) : dot a0 a0 = 1 -> dot a1 a1 = 1 -> dot a0 a1 = 0 -> cross a0 a1 <> vzero.
+Proof. intros U0 U1 U01. apply unit_nonzero. rewrite dot_cross_cross, U0, U1, U01. ring. Qed.
+
+(** *** triangle_to_triangle: the early exit returns 0 (trivially a lower bound); otherwise the result
+        is the minimum of the six (edge, triangle) candidates *)
+Theorem triangle_to_triangle_optimal (a1 b1 c1 a2 b2 c2 : V3R) (eps : R) d p1 p2 :
+  cross (vsub b1 a1) (vsub c1 a1) <> vzero -> cross (vsub b2 a2) (vsub c2 a2) <> vzero -> 0 < eps < 1 ->
+  eps <= dot (vsub b1 a1) (vsub b1 a1) -> eps <= dot (vsub c1 b1) (vsub c1 b1) -> eps <= dot (vsub a1 c1) (vsub a1 c1) ->
+  eps <= dot (vsub b2 a2) (vsub b2 a2) -> eps <= dot (vsub c2 b2) (vsub c2 b2) -> eps <= dot (vsub a2 c2) (vsub a2 c2) ->
+  (forall se, In se (tri_edges a1 b1 c1) -> edge_band (Support.norm_vector (cross (vsub b2 a2) (vsub c2 a2))) eps se) ->
+  (forall se, In se (tri_edges a2 b2 c2) -> edge_band (Support.norm_vector (cross (vsub b1 a1) (vsub c1 a1))) eps se) ->
+  triangle_to_triangle a1 b1 c1 a2 b2 c2 eps = (d, p1, p2) ->
+  optimal (triangle_set a1 b1 c1) (triangle_set a2 b2 c2) d.
+Proof.
+  intros Hn1 Hn2 He K1 K2 K3 M1 M2 M3 B1 B2. unfold triangle_to_triangle.
+  destruct (scan_ret eps _ init_best) as [best ret] eqn:E1. apply scan_ret_le in E1.
+  destruct ret.
+  - intros ->. destruct E1 as [[_ Z]|[Hf _]]; [|discriminate]. unfold rd in Z. cbn [fst] in Z. subst d. apply optimal_zero.
+  - destruct (scan_ret eps _ best) as [best2 ret2] eqn:E2. cbn [fst]. intros ->. apply scan_ret_le in E2.
+    change (rd (d, p1, p2)) with d in E2.
+    destruct E2 as [[_ Z]|(_ & Hb & Hc2)]; [subst d; apply optimal_zero|].
+    destruct E1 as [[Hf _]|(_ & _ & Hc1)]; [discriminate|].
+    apply (pair_reduction_optimal _ _ (on_tri_edge a1 b1 c1) (on_tri_edge a2 b2 c2)); [apply tri_tri_reduction; assumption| |].
+    + intros x y (se & Hin & Hx) Hy.
+      pose proof (Hc1 _ (in_map (fun se => line_segment_to_triangle (fst se) (snd se) a2 b2 c2 eps) _ se Hin)) as Hle.
+      cbv beta in Hle.
+      assert (Hne : fst se <> snd se) by (eapply tri_edges_nondeg; [|exact Hin]; assumption).
+      pose proof (lstt_opt (fst se) (snd se) a2 b2 c2 eps Hne He Hn2 M1 M2 M3) as Hopt.
+      specialize (Hopt ltac:(destruct se; apply B1; exact Hin) x y Hx Hy). lra.
+    + intros x y Hx (se & Hin & Hy).
+      pose proof (Hc2 _ (in_map (fun se => rswap (line_segment_to_triangle (fst se) (snd se) a1 b1 c1 eps)) _ se Hin)) as Hle.
+      cbv beta in Hle. rewrite rd_rswap in Hle.
+      assert (Hne : fst se <> snd se) by (eapply tri_edges_nondeg; [|exact Hin]; assumption).
+      pose proof (lstt_opt (fst se) (snd se) a1 b1 c1 eps Hne He Hn1 K1 K2 K3) as Hopt.
+      specialize (Hopt ltac:(destruct se; apply B2; exact Hin) y x Hy Hx). rewrite norm_sub_comm. lra.
+Qed.
